@@ -213,3 +213,45 @@ META["C08"] = dict(
 INTERVAL_PROOFS = ["MV.Proofs.Interval"]   # soundness of every MV.I enclosure over the reals
 for _p in ["C03", "C04", "C05", "C08", "C09", "C11", "C12", "C14", "C16", "C17"]:
     META[_p]["extra_modules"] = INTERVAL_PROOFS
+
+
+def _race_post(prop, tier, seed, work, goenv, repo, build_harness):
+    """C20: replay the generated programs in a binary built with -race; every data race the
+    detector reports is a failing case (mapped back to the program through CASE markers)."""
+    import os, subprocess
+    exe, err = build_harness(work, race=True)
+    if exe is None:
+        return [("race build", "bad-op race build failed: " + err[-300:].replace("\n", " "))]
+    gen = subprocess.run([exe, "gen", prop, tier, str(seed)], capture_output=True, text=True, env=goenv, timeout=1800)
+    lines = gen.stdout.splitlines()
+    limit = 150 if tier == "quick" else 3000
+    lines = lines[:limit]
+    env = dict(goenv, GORACE="halt_on_error=0 exitcode=0", VERIF_CASE_MARKERS="1")
+    p = subprocess.run([exe, "exec"], input="\n".join(lines) + "\n", capture_output=True, text=True, env=env, timeout=7200)
+    cur, racy = 0, {}
+    stderr = p.stderr.splitlines()
+    for i, l in enumerate(stderr):
+        if l.startswith("CASE "):
+            cur = int(l.split()[1])
+        elif "WARNING: DATA RACE" in l:
+            ctx = " ".join(x.strip() for x in stderr[i:i + 12] if "go-moremath" in x or "harness" in x)[:300]
+            racy.setdefault(cur, ctx)
+    out = []
+    outs = p.stdout.splitlines()
+    for k, ctx in sorted(racy.items()):
+        case = outs[k - 1] if 0 < k <= len(outs) else (lines[k - 1] if 0 < k <= len(lines) else "?")
+        out.append((case, "FAIL data-race " + (ctx or "race detector report")))
+    out.append((f"race-run programs={len(lines)} completed={len(outs)}", "ok nt race-detector-run" if len(outs) == len(lines) else "FAIL race-run-incomplete the -race binary stopped early: " + p.stderr[-300:].replace("\n", " ")))
+    return out
+
+
+META["C20"] = dict(
+    level_text="Theorems (Lean): in the heap-machine model only the documented in-place operations write, and only their receiver; outputs depend only on the named arguments (repeatability); any interleaving of non-mutating calls yields, call for call, the sequential outputs. Correspondence: for random programs over shared objects (unsorted data with ties; a Sample aliasing a slice) every real call's observed write set is compared with the model's documented write set, every non-mutating call is repeated after the others and replayed from 16 goroutines with bitwise comparison, and the same programs run in a binary built with -race: every race report is a violation.",
+    level_note="Partial: data-race freedom is a property of the Go memory model and scheduler that the Lean model cannot exhibit; it is observed by the race detector on the schedules that occur, not proved. The theorems are true of the model by construction; the content is in the correspondence. API coverage = the op table of harness/c20.go (63 entry points).",
+    technique="Lean 4 frame/determinism theorems on a heap machine + write-set correspondence, bitwise replay and race-detector runs",
+    rule="pure objs prefix block: 17 shared objects per program (slices, Samples incl. weighted and one aliasing a slice, graphs, KDE with zero or set Bandwidth, StreamStats, LinearHist, NodeMarks, Linear/Log scales, int slice, UDist) with unsorted, tie-rich data; a prefix of 4..14 random API calls incl. the documented mutators (frame checked per call), then a block of 12..40 non-mutating calls executed, repeated in shuffled order and replayed by 16 goroutines; first 150 programs (thorough 3000) also under -race. non-trivial = every program",
+    exhaustive_part="",
+    trusted_base=COMMON_TB + ["Go race detector (observes only the schedules that happen)"],
+    assumptions=["KDE bandwidth is filled in (documented lazy write) before the concurrent block"],
+    post=_race_post,
+)
